@@ -13,6 +13,7 @@ import (
 	"fmt"
 	"sort"
 	"strings"
+	"sync"
 	"time"
 
 	"github.com/samsarahq/thunder/reactive"
@@ -25,7 +26,7 @@ func init() {
 		runner.Register(p, runner.Scenario{Name: "reactive", Options: options, Body: func(c *runner.Ctx) { body(c, false) }})
 		runner.Register(p, runner.Scenario{Name: "reactive-stall", Options: stallOptions, Body: func(c *runner.Ctx) { body(c, true) }})
 		runner.Register(p, runner.Scenario{Name: "reactive-preempt", Options: func(string) simrt.Options {
-			return simrt.Options{MaxSteps: 150000, RotateMaps: true, ParkPermille: 8}
+			return simrt.Options{MaxSteps: 150000, RotateMaps: true, ParkPermille: 8, MapPausePermille: 200}
 		}, Body: func(c *runner.Ctx) { body(c, false) }})
 	}
 }
@@ -52,6 +53,7 @@ const (
 	itCache
 	itAfter
 	itPurge
+	itPar
 )
 
 type item struct {
@@ -63,6 +65,9 @@ type item struct {
 	// that has already been cancelled (a helper's "defer cancel()" ran, an
 	// errgroup finished): still the same computation
 	ended bool
+	// par: branches that run at the same time on tasks of their own, as the
+	// resolvers of one query do; the run continues when all have returned
+	par [][]item
 }
 
 type rerunner struct {
@@ -227,6 +232,26 @@ func (w *world) exec(ctx context.Context, r *rerunner, plan []item, inv int, dep
 		case itPurge:
 			w.c.Probe("purge-cache")
 			reactive.PurgeCache(ctx)
+		case itPar:
+			w.c.Probe("parallel-branches")
+			res := make([][]obs, len(it.par))
+			errs := make([]error, len(it.par))
+			var wg sync.WaitGroup
+			for bi := range it.par {
+				bi := bi
+				wg.Add(1)
+				go func() {
+					defer wg.Done()
+					res[bi], errs[bi] = w.exec(ctx, r, it.par[bi], inv, depth+1)
+				}()
+			}
+			wg.Wait()
+			for bi := range it.par {
+				if errs[bi] != nil {
+					return nil, errs[bi]
+				}
+				out = append(out, res[bi]...)
+			}
 		}
 	}
 	return out, nil
@@ -316,8 +341,28 @@ func (w *world) genPlan(c *runner.Ctx, nSlots int, minKey int, r *rerunner) []it
 	n := 1 + c.Choose(4, "plan-len")
 	var plan []item
 	for i := 0; i < n; i++ {
-		k := c.Choose(10, "plan-item")
+		k := c.Choose(11, "plan-item")
 		switch {
+		case k == 10:
+			// two or three branches of reads and cached look-ups side by side
+			var par [][]item
+			for b := 2 + c.Choose(2, "branches"); b > 0; b-- {
+				var br []item
+				for m := 1 + c.Choose(2, "branch-len"); m > 0; m-- {
+					if minKey < 3 && c.Choose(2, "branch-item") == 1 {
+						ki := minKey + c.Choose(3-minKey, "key")
+						key := fmt.Sprintf("k%d", ki)
+						if _, ok := r.sub[key]; !ok {
+							r.sub[key] = w.genPlan(c, nSlots, ki+1, r)
+						}
+						br = append(br, item{kind: itCache, key: key})
+					} else {
+						br = append(br, item{kind: itRead, slot: c.Choose(nSlots, "slot")})
+					}
+				}
+				par = append(par, br)
+			}
+			plan = append(plan, item{kind: itPar, par: par})
 		case k < 5 || (k < 8 && minKey >= 3):
 			plan = append(plan, item{kind: itRead, slot: c.Choose(nSlots, "slot"), ended: c.Choose(8, "ended-ctx") == 1})
 		case k < 8:
@@ -356,6 +401,12 @@ func planString(p []item, sub map[string][]item, seen map[string]bool) string {
 			parts = append(parts, "after"+it.dur.String())
 		case itPurge:
 			parts = append(parts, "purge")
+		case itPar:
+			var bs []string
+			for _, br := range it.par {
+				bs = append(bs, planString(br, sub, seen))
+			}
+			parts = append(parts, "par["+strings.Join(bs, " | ")+"]")
 		}
 	}
 	return strings.Join(parts, " ")
